@@ -16,6 +16,10 @@ theorem gen_WFSA_zero_eq_model (A : WFSA ι σ K) : Build.WFSA_zero A = WFSA.zer
 
 theorem gen_WFSA_one_eq_model (A : WFSA ι σ K) : Build.WFSA_one A = (WFSA.one : WFSA Nat σ K) := rfl
 
+/-- `rename(f)` (`spawn()` inlined: an empty machine) is `mapStates f` -/
+theorem gen_WFSA_rename_eq_model (A : WFSA ι σ K) (f : ι → κ) : Build.WFSA_rename A f = A.mapStates f := by
+  simp [Build.WFSA_rename, WFSA.mapStates, flatMap_single]
+
 theorem gen_WFSA_reverse_eq_model (A : WFSA ι σ K) : Build.WFSA_reverse A = A.reverse := by
   simp [Build.WFSA_reverse, WFSA.reverse, flatMap_single]
 
